@@ -98,7 +98,12 @@ func H_C10_end() {
 			conn.in <- &Rpc{Id: 70 + uint64(i), Header: zzReqHdr("BidiStream"), Body: zzBody(1)}
 		}
 		for i := 0; i < u; i++ {
-			conn.in <- &Rpc{Id: id, Header: zzReqHdr("Unary"), Body: zzBody(5)}
+			uh := zzReqHdr("Unary")
+			if vfParam("tmo", 0) == 1 {
+				// the call carries its own (far) deadline: the end of the connection must still cancel it
+				uh.Headers = []*goatorepo.KeyValue{{Key: "grpc-timeout", Value: "1H"}}
+			}
+			conn.in <- &Rpc{Id: id, Header: uh, Body: zzBody(5)}
 			id++
 		}
 		first := id
